@@ -268,7 +268,7 @@ pub fn run_c03(tier: Tier) -> i32 {
     ctx.assume("well-formed server output is what mpdref::wire::Wire::encode produces for the bounded grammar (fields over 3 keys x 12 values, 8 binary payloads, 144 errors, single/list/error forms, sequences of responses)");
     ctx.assume("expected values are computed from the abstract response, independently of the parser; encoder and reference decoder of mpdref are cross-checked on every stream");
     let items = c03_items(tier);
-    let (all_upto, two_upto, three_upto) = tier.pick((12, 72, 0), (17, 140, 48));
+    let (all_upto, two_upto, three_upto) = tier.pick((12, 72, 0), (18, 160, 56));
     let acc = items
         .par_iter()
         .map(|(ws, pos)| {
@@ -941,7 +941,7 @@ pub fn run_c09(tier: Tier) -> i32 {
         .reduce(Acc::default, Acc::merge);
     // (b) corruptions of grammar streams
     let mut pool: Vec<Vec<u8>> = seq_pool().iter().map(|w| encode_items(&[w.clone()], BinPos::Last).0).collect();
-    for (ws, pos) in c03_items(Tier::Quick).iter().step_by(tier.pick(40, 8)) {
+    for (ws, pos) in c03_items(Tier::Quick).iter().step_by(tier.pick(40, 3)) {
         let s = encode_items(ws, *pos).0;
         if s.len() <= 80 {
             pool.push(s);
